@@ -1,7 +1,7 @@
 (** C04 — input sessions are atomic and readers see one input snapshot.
     The protocol model is Conc/PhaseLock.v; the order of the synchronisation calls is read
     from database/sync.rs on every run (Generated/PhaseOrder.v). *)
-From QV Require Import Common.Prelude Generated.PhaseOrder Conc.PhaseLock Conc.PhaseLockProof.
+From QV Require Import Common.Prelude Generated.PhaseOrder Generated.CommitGuardScope Conc.PhaseLock Conc.PhaseLockProof Conc.CommitCancel.
 
 (** every order accepted by [order_ok] is safe under every schedule, any number of readers *)
 Theorem C04_generic :
@@ -21,8 +21,26 @@ Theorem C04_atomic :
   forall sched, safe reader_order (run writer_order reader_order sched init) = true.
 Proof. exact (right_order_safe writer_order reader_order eq_refl). Qed.
 
+(** a commit() whose future is dropped after any number of polls (select!, timeout, abort) still
+    releases the phase lock only after the session's dirt has been propagated - for the scope of
+    the run-to-completion wrapper the source has now (read from input_session.rs on every run);
+    a wrapper around the propagation alone, or none, is refuted (dropped while the propagation
+    is pending).  The step model is Conc/CommitCancel.v (three steps; it does not model tokio). *)
+Theorem C04_commit_atomic_under_cancellation :
+  forall polls, atomic_under_cancellation commit_guard_scope polls = true.
+Proof.
+  change commit_guard_scope with GuardWhole.     (* fails if `.guarded()` no longer wraps the whole block *)
+  exact whole_block_guard_is_atomic.
+Qed.
+Theorem C04_commit_inner_guard_refuted :
+  (exists polls, atomic_under_cancellation GuardPropOnly polls = false) /\
+  (exists polls, atomic_under_cancellation GuardNone polls = false).
+Proof. exact (conj inner_guard_is_not_atomic no_guard_is_not_atomic). Qed.
+
 Check busy_schedule.
 
 Print Assumptions C04_generic.
 Print Assumptions C04_generic_converse.
 Print Assumptions C04_atomic.
+Print Assumptions C04_commit_atomic_under_cancellation.
+Print Assumptions C04_commit_inner_guard_refuted.
